@@ -275,7 +275,7 @@ PROPS["C06"] = {
     "models": POSTPROC_MODELS,
     "harnesses": [
         {"pkg": PP, "func": "VerifH_C06_postprocess", "opts": {"map_order_all": False},
-         "covers": ["redirect-limit-reached", "redirect-followed", "asset-depth-limit", "asset-added", "outlink-queued", "outlink-domains-crawl", "link-header"]},
+         "covers": ["redirect-limit-reached", "redirect-followed", "asset-depth-limit", "asset-added", "outlink-queued", "outlink-domains-crawl", "link-header", "outlink-expected", "body-released"]},
     ],
 }
 
@@ -371,8 +371,8 @@ PROPS["C02"] = {
 }
 
 PIPE_MODELS = dict(URL_MODELS)
-PIPE_MODELS.update(ARCH_MODELS)
 PIPE_MODELS.update(POSTPROC_MODELS)
+PIPE_MODELS.update(ARCH_MODELS)  # the sniffer-based MIME objects win over the C06 harness's single MIME
 PIPE_MODELS.update({
     "(*net/http.Client).Do": VM + "SiteClientDo",
     EXT + "IsHTML": VM + "SiteIsHTML", EXT + "IsJSON": VM + "SiteIsJSON",
@@ -392,7 +392,7 @@ PROPS["C01"] = {
     "models": PIPE_MODELS,
     "stub_pkgs": DEFAULT_STUBS + [STATS],
     "harnesses": [
-        {"pkg": "internal/verifpipe", "func": "VerifH_C01_one_seed", "no_native": True, "opts": {"max_steps": 50000000, "unwind": 70000, "map_order_all": False, "preempt": 1},
+        {"pkg": "internal/verifpipe", "func": "VerifH_C01_one_seed", "replay_tries": 2, "opts": {"max_steps": 50000000, "unwind": 70000, "map_order_all": False},
          "covers": ["finished", "asset-fetched", "asset-of-asset", "redirect-followed", "always-failing", "outlink-produced"]},
     ],
 }
